@@ -151,3 +151,11 @@ func H_C01_flat() {
 	hCheckRoundTrip(nd.build(), false)
 	verifReach("end")
 }
+
+// acyclic trees in which the same container instance is reachable twice
+func H_C01_shared_child() {
+	c := hDiamond()
+	p := verifCatch(func() { hCheckRoundTrip(c, true) })
+	verifAssert(!p, "serialising and parsing an acyclic tree does not panic")
+	verifReach("end")
+}
